@@ -53,6 +53,12 @@ fn main() {
             }
             props::child::child_optimize(&args[2], &args[3]);
         }
+        "child-emit" => {
+            if args.len() != 5 {
+                usage();
+            }
+            props::child::child_emit(&args[2], &args[3], &args[4]);
+        }
         "child-run" => {
             if args.len() != 5 {
                 usage();
